@@ -22,3 +22,15 @@ Theorem C10_table_auth : forall O P c r, verify_auth_rec O P c = Ok r ->
   va_uv r = flag f 2 /\ va_multi_device r = flag f 3 /\ va_backed_up r = flag f 4.
 Proof. exact auth_flag_table. Qed.
 Print Assumptions C10_table_auth.
+
+(* registration: accepted => UP unless waived, UV-if-required, AT (attested credential data follows),
+   not (BS without BE); reported fields are the bits *)
+From PW Require Import Model.VerifyReg Proofs.RegProofs.
+Theorem C10_table_reg : forall O P c r, verify_reg_rec O P c = Ok r ->
+  exists ao, parse_att_object (rcr_att_obj c) = Ok ao /\
+  let f := nth 32 (ao_auth_data_raw ao) 0 in
+  (rp_require_up P = true -> flag f 0 = true) /\ (rp_require_uv P = true -> flag f 2 = true) /\
+  flag f 6 = true /\ (flag f 4 = true -> flag f 3 = true) /\
+  vr_uv r = flag f 2 /\ vr_multi_device r = flag f 3 /\ vr_backed_up r = flag f 4.
+Proof. exact reg_flag_table. Qed.
+Print Assumptions C10_table_reg.
